@@ -16,7 +16,9 @@ import time
 from pathlib import Path
 
 ROOT = Path(__file__).resolve().parent.parent
-args = [a for a in sys.argv[1:] if not a.startswith("--")]
+_argv = sys.argv[1:]
+_skip = {i + 1 for i, a in enumerate(_argv) if a in ("--name", "--checks")}
+args = [a for i, a in enumerate(_argv) if not a.startswith("--") and i not in _skip]
 pid = args[0].upper()
 src = Path(args[1]) if len(args) > 1 else Path(f"/tmp/seed-out/{pid}")
 name = pid
